@@ -30,6 +30,28 @@ REGEX_LIT_OTHER = [("Option<String>", "Some(\"abc\".to_string())", "Some(=~ r\"^
                    ("Vec<String>", "vec![\"abc\".to_string()]", "#(=~ r\"b\")")]
 
 
+# a user type with its own Like<&str> (and, where the feature exists, Like<Regex>): with the feature off the literal form must
+# still be a compile error, not a call of the user's Like<&str> with the literal (another meaning); the same assertion with the
+# pattern in a variable is the control (user Like impls keep working)
+TAG_DECLS = r'''
+#[derive(Debug)] struct Tag(String);
+impl assert_struct::Like<&str> for Tag { fn like(&self, p: &&str) -> bool { self.0.contains(*p) } }
+#[derive(Debug)] struct TT { t: Tag, n: i32 }
+fn tt() -> TT { TT { t: Tag("a.c".to_string()), n: 1 } }
+'''
+TAG_DECLS_ON = TAG_DECLS + r'''
+impl assert_struct::Like<assert_struct::__macro_support::Regex> for Tag {
+    fn like(&self, p: &assert_struct::__macro_support::Regex) -> bool { p.is_match(&self.0) }
+}
+'''
+TAG_LIT = ["TT { t: =~ \"a.c\", .. }", "TT { t: =~ r\"x|a\", n: 1 }", "_ { t: =~ \"c$\", .. }"]
+TAG_CONTROL = ["TT { t: =~ tagpat, .. }"]
+
+
+def tag_program(pattern, on):
+    return program(["    run_case(\"r\", || { let tagpat = \"a.c\"; let v = tt(); assert_struct!(v, %s); });" % pattern], TAG_DECLS_ON if on else TAG_DECLS)
+
+
 def program(bodies, decls=""):
     return (e2e.PRELUDE + semgen.DECLS + decls + "fn main() {\n    std::panic::set_hook(Box::new(|_| {}));\n"
             "    let _plain = assert_struct::__macro_support::PlainOutputGuard::new();\n" + "\n".join(bodies) + "\n}\n")
@@ -115,10 +137,31 @@ def run(res):
     lit_progs = [program(["    run_case(\"r\", || { let v = u(); assert_struct!(v, %s); });" % p], USER_DECLS) for p in REGEX_LIT] + \
                 [program(["    run_case(\"r\", || { let v: %s = %s; assert_struct!(v, %s); });" % (t, v, p)]) for t, v, p in REGEX_LIT_OTHER]
     lit_pats = REGEX_LIT + [p for _, _, p in REGEX_LIT_OTHER]
-    lon = e2e.compile_many(lit_progs, run=False, regex=True, tag="c16lon")
-    loff = e2e.compile_many(lit_progs, run=False, regex=False, tag="c16loff")
+    tag_on = [tag_program(p, True) for p in TAG_LIT + TAG_CONTROL]
+    tag_off = [tag_program(p, False) for p in TAG_LIT + TAG_CONTROL]
+    lon = e2e.compile_many(lit_progs + tag_on, run=False, regex=True, tag="c16lon")
+    loff = e2e.compile_many(lit_progs + tag_off, run=False, regex=False, tag="c16loff")
     e2e.cleanup("c16lon")
     e2e.cleanup("c16loff")
+    ton, toff = lon[len(lit_progs):], loff[len(lit_progs):]
+    lon, loff = lon[:len(lit_progs)], loff[:len(lit_progs)]
+    name_t = "direct:a regex literal on a user type with its own Like<&str> is a compile error without the feature (%d programs + control)" % len(TAG_LIT)
+    res.obligations.append(name_t)
+    tag_bad = 0
+    for k, p in enumerate(TAG_LIT + TAG_CONTROL):
+        if not ton[k]["compiled"]:
+            raise vlib.CheckError("a user-Like program does not compile WITH the feature: " + ton[k]["stderr"][-1500:])
+        if k >= len(TAG_LIT):
+            if not toff[k]["compiled"]:
+                tag_bad += 1
+                res.violation("failing-input", "`%s` (a user Like impl, pattern in a variable) is rejected with default-features = false: user-implemented "
+                              "Like patterns must keep working" % p, {"program": tag_off[k][-1500:], "stderr": toff[k]["stderr"][-1200:]})
+        elif toff[k]["compiled"]:
+            tag_bad += 1
+            res.violation("failing-input", "`%s` on a type with a user Like<&str> impl is accepted with default-features = false, with the user's meaning "
+                          "instead of regex matching (the property requires a compile error)" % p, {"program": tag_off[k][-1500:]})
+    if not tag_bad:
+        res.discharged.append(name_t)
     # model's prediction for the same invocations (real parser's tree -> extracted has_regex / compiles_in)
     inv = ["v, " + p for p in lit_pats] + ["v, " + c["pattern"] for c in cases] + ["v, " + p for p in USER_LIKE]
     mac = maclib.run_mac(inv, mode="expand")
@@ -187,6 +230,7 @@ def run(res):
                                          "failures": failing, "model_disagreements": dis + dis_c,
                                          "wiring": {k: facts[k] for k in ("runtime_features", "macro_features", "edge_default", "edge_features")},
                                          "runtime_gates": facts["runtime_gates"], "macro_gates": len(facts["macro_gates"])}
+    failing += tag_bad
     if not failing:
         res.discharged.append(name_a)
     if not dis and not failing:
